@@ -215,8 +215,14 @@ def validators():
            ('JSONable', 'JSONable', 'val json', BoboValidatorJSONable(), None, None, None)]
     for name, ts in TYPE_CONFIGS:
         for sub in (True, False):
-            out.append((f'Type[{name},subtype={int(sub)}]', 'Type', f'val type {int(sub)} {len(ts)}',
-                        BoboValidatorType(list(ts), subtype=sub), None, ts, sub))
+            working = list(ts)
+            v = BoboValidatorType(working, subtype=sub)
+            # the application goes on using ITS list (to configure the validator of another receiver, say): the first
+            # validator was configured with what the list held when it was built
+            working.append(object)
+            working.extend((str, int, type(None), Record))
+            del working[:len(ts)]
+            out.append((f'Type[{name},subtype={int(sub)}]', 'Type', f'val type {int(sub)} {len(ts)}', v, None, ts, sub))
     for name, sc in SCHEMAS:
         out.append((f'JSONSchema[{name}]', 'JSONSchema', 'val schema', BoboValidatorJSONSchema(sc), sc, None, None))
     return out
